@@ -41,6 +41,8 @@ def cases(ctx):
         yield {"kind": "cli", "seed": rng.getrandbits(32), "hashseeds": [rng.randint(0, 2 ** 31) for _ in range(ctx.pick(3, 6))]}
     for i in range(ctx.per_shard(ctx.pick(2, 100))):
         yield {"kind": "cli-nosalt", "seed": rng.getrandbits(32)}
+    for i in range(ctx.per_shard(ctx.pick(3, 120))):
+        yield {"kind": "cli-dir", "seed": rng.getrandbits(32), "hashseeds": [rng.randint(0, 2 ** 31) for _ in range(ctx.pick(3, 5))]}
     for i in range(ctx.per_shard(ctx.pick(60, 3000))):
         yield {"kind": "nosalt", "seed": rng.getrandbits(32), "feats": rng.choice(subs)}
 
@@ -152,6 +154,8 @@ def check_case(ctx, case):
             return _nosalt(ctx, case, nc)
         if k == "cli-nosalt":
             return _cli_nosalt(ctx, case, nc)
+        if k == "cli-dir":
+            return _cli_dir(ctx, case, nc)
         raise HarnessError("unknown kind")
     finally:
         cur = nc.rw.default_reserved_words
@@ -278,6 +282,47 @@ def _cli(ctx, case, nc):
                           % (outs[0][0], hs, first_diff(outs[0][1].decode("utf-8", "replace"), o.decode("utf-8", "replace"))))
             return
     ctx.distinct((case["seed"], "cli"))
+
+
+def _cli_dir(ctx, case, nc):
+    """A directory (several visible files with secrets first seen in different files, hidden files next to
+    them, sub-directories) through the CLI under different hash seeds: identical output trees."""
+    rng = random.Random(case["seed"])
+    opts = M.options(rng)
+    if not opts["salt"]:
+        opts["salt"] = "s0"
+    outs = []
+    with tempfile.TemporaryDirectory(dir=os.path.join(load.VERIF, ".work")) as d:
+        os.makedirs(os.path.join(d, "in", "sub"))
+        names = ["a.cfg", "b.cfg", "c.cfg", "d.cfg", ".hidden.swp", "sub/e.cfg", "sub/f.cfg", "sub/.DS_Store", "sub/g.cfg"]
+        for n in names:
+            text = M.render_text(M.gen_text(rng, opts, rng.randint(3, 10))) + "username u%s password Pw%dx%s\n" % (n[0], rng.getrandbits(30), n[0])
+            with open(os.path.join(d, "in", n), "w", encoding="utf-8", newline="") as f:
+                f.write(text)
+        for k, hs in enumerate(case["hashseeds"]):
+            argv = ["-i", os.path.join(d, "in"), "-o", os.path.join(d, "o%d" % k), "-s", opts["salt"], "-a", "-p", "-w", ",".join(opts["words"])]
+            p = c02.run_cli(argv, hs)
+            ctx.count("child_processes")
+            ctx.setadd("hash_seeds", hs)
+            tree = {}
+            for n in names:
+                try:
+                    with open(os.path.join(d, "o%d" % k, n), "rb") as f:
+                        tree[n] = f.read()
+                except OSError:
+                    tree[n] = None
+            outs.append((hs, tree, p.returncode))
+    ctx.ev()
+    for hs, tree, rc in outs[1:]:
+        ctx.count("output_comparisons")
+        if tree != outs[0][1]:
+            n = next(x for x in names if tree[x] != outs[0][1][x])
+            a = (outs[0][1][n] or b"").decode("utf-8", "replace")
+            b = (tree[n] or b"").decode("utf-8", "replace")
+            ctx.violation(case, "depends-on-hash-seed:cli-directory", "netconan on a directory under PYTHONHASHSEED=%d and %d: %s differs: %s"
+                          % (outs[0][0], hs, n, first_diff(a, b)))
+            return
+    ctx.distinct((case["seed"], "cli-dir"))
 
 
 def _cli_nosalt(ctx, case, nc):
